@@ -600,6 +600,20 @@ def suite_tables(ctx, exe, tmpdir):
                 o2 = list(ops)
                 rng.shuffle(o2)
                 tables.append(o2)
+    # interleaved registrations: the same template again after an overlapping one (registration order among equals)
+    for _ in range(80 if ctx.quick else 1500):
+        t1 = gen_template(rng)
+        if "{" not in t1:
+            continue
+        t2 = re.sub(r"\{([a-z])(?=[:}])", lambda m: "{" + m.group(1) + "2", t1) if rng.random() < 0.6 else \
+            _HOLE.sub(lambda m: rng.choice(["{q}", "{q:.+}", m.group(0)]), t1, count=1)
+        if len(set(n for n, _ in hole_specs(t2))) != len(hole_specs(t2)):
+            continue
+        m1, m2 = rng.sample(ROUTE_METHODS[:3], 2)
+        ops = [["R", m1, t1, 1], ["R", rng.choice([m2, "*"]), t2, 2], ["R", m2, t1, 3]]
+        if rng.random() < 0.3:
+            ops.insert(rng.randrange(3), ["R", rng.choice(ROUTE_METHODS[:3]), gen_template(rng), 4])
+        tables.append(ops)
     items = [(ops, gen_queries(rng, ops, 6 if ctx.quick else 10)) for ops in tables]
     for i in range(0, len(items), 200):
         run_tables(ctx, exe, tmpdir, items[i:i + 200])
